@@ -330,6 +330,7 @@ type concProbe struct {
 	parked      atomic.Bool // the Emit call `parkAt` is waiting for its ctx
 	slowWait    atomic.Bool // the cancelled parked call is waiting for the environment before it returns
 	slowRelease chan struct{}
+	openFail    bool // Open returns an error (sofail=1)
 }
 
 // releaseSlow lets a cancelled-but-still-inside Emit call return; reports whether there was one.
@@ -348,6 +349,10 @@ func (p *concProbe) releaseSlow() bool {
 }
 
 func (p *concProbe) Open(ctx context.Context) error {
+	if p.openFail {
+		p.log.add(fmt.Sprintf("of%d", p.log.g()))
+		return errConcUser
+	}
 	// a new materialisation: the provider starts over
 	p.cursor.Store(0)
 	p.calls.Store(0)
@@ -461,6 +466,7 @@ type concCase struct {
 	child    bool   // run in a re-exec'd child process (the case may crash the process)
 	ofail    string // "" | "err" | "panic": a lifecycle element placed AFTER the async stage whose Open fails
 	dl       bool   // the caller's context ends by its DEADLINE (ctx.Err() = context.DeadlineExceeded) instead of a cancel call
+	sofail   bool   // the SOURCE provider's Open fails (the asynchronous stage has nothing to read: no reader may be waited for)
 	osat     bool   // the failing Open waits until the stage has saturated (the source is no longer pulled: workers hold results nobody takes)
 	rep      int    // materialise the SAME stream value this many times (>= 1)
 	slowat   int    // source Emit call index that takes `slowms` milliseconds before it returns (-1 = none): a quiet source
@@ -538,6 +544,8 @@ func parseConcCase(text string) (*concCase, error) {
 			cc.ofail = v
 		case "osat":
 			cc.osat = v == "1"
+		case "sofail":
+			cc.sofail = v == "1"
 		case "dl":
 			cc.dl = v == "1"
 		case "slowat":
@@ -1252,7 +1260,7 @@ func concRunOnce(cc *concCase) concObs {
 	}
 	base := concScan(nil) // goroutines left over by earlier cases (only after a reported leak) are ignored
 	r := &concRun{cc: cc, log: &concLog{}, mgate: newConcGate(), cgate: newConcGate(), ignore: base.ids}
-	r.src = &concProbe{n: cc.n, log: r.log, parkAt: cc.park, errAt: cc.se, yield: cc.yield, slowret: cc.slowret, slowRelease: make(chan struct{}, 1), slowAt: cc.slowat, slowMs: cc.slowms}
+	r.src = &concProbe{n: cc.n, log: r.log, parkAt: cc.park, errAt: cc.se, yield: cc.yield, slowret: cc.slowret, slowRelease: make(chan struct{}, 1), slowAt: cc.slowat, slowMs: cc.slowms, openFail: cc.sofail}
 	if cc.sg {
 		r.src.gate = newConcGate()
 	}
